@@ -668,3 +668,78 @@ func VfC03_Constants() {
 		}
 	}
 }
+
+// VfC03_Names: a value named through the constructors keeps its name whatever
+// the lexical class of the name: a letter, one digit, "0" and a digit, "-" and
+// a digit, a digit and a letter, a name with a space, with a quote or a
+// backslash (the characters are symbolic within the class).  Sites: block
+// (NewBlock), instruction result (SetName), parameter (NewParam), global
+// (NewGlobalDef), function (NewFunc).  The named entity is named (not an
+// unnamed value with an ID), the module prints, the text is accepted and the
+// entity read back has exactly that name.
+//
+//vf:unwind 400
+//vf:shards 5
+func VfC03_Names() {
+	site := vfChoice("site", 5)
+	c := vfString("c", 1)
+	var name string
+	switch vfChoice("class", 7) {
+	case 0:
+		vfAssume(vfAnd(c[0] >= 'r', c[0] <= 'z'))
+		name = c
+	case 1:
+		vfAssume(vfAnd(c[0] >= '0', c[0] <= '9'))
+		name = c
+	case 2:
+		vfAssume(vfAnd(c[0] >= '0', c[0] <= '9'))
+		name = "0" + c
+	case 3:
+		vfAssume(vfAnd(c[0] >= '0', c[0] <= '9'))
+		name = "-" + c
+	case 4:
+		vfAssume(vfAnd(c[0] >= '0', c[0] <= '9'))
+		name = c + "x"
+	case 5:
+		vfAssume(vfAnd(c[0] >= 'r', c[0] <= 'z'))
+		name = c + " " + c
+	default:
+		vfAssume(vfOr(c[0] == '"', c[0] == '\\'))
+		name = "q" + c
+	}
+	m := ir.NewModule()
+	gname, fname, pname, bname, iname := "g", "f", "p", "b", "i"
+	switch site {
+	case 0:
+		bname = name
+	case 1:
+		iname = name
+	case 2:
+		pname = name
+	case 3:
+		gname = name
+	default:
+		fname = name
+	}
+	g := m.NewGlobalDef(gname, constant.NewInt(types.I32, 1))
+	f := m.NewFunc(fname, types.I32, ir.NewParam(pname, types.I32))
+	b := f.NewBlock(bname)
+	i := b.NewAdd(f.Params[0], constant.NewInt(types.I32, 2))
+	i.SetName(iname)
+	b.NewRet(i)
+	vfReach("C03.names.built")
+	vfAssert("C03.names.entity-is-named", vfAnd(vfAnd(vfNot(b.IsUnnamed()), vfNot(i.IsUnnamed())), vfAnd(vfNot(f.Params[0].IsUnnamed()), vfAnd(vfNot(g.IsUnnamed()), vfNot(f.IsUnnamed())))))
+	vfAssert("C03.names.name-kept", vfAnd(vfAnd(b.LocalName == bname, i.LocalName == iname), vfAnd(f.Params[0].LocalName == pname, vfAnd(g.GlobalName == gname, f.GlobalName == fname))))
+	s := m.String()
+	vfObserveStr("printed", s)
+	m2, err := ParseString("t.ll", s)
+	vfAssert("C03.names.reparses", err == nil)
+	if err != nil {
+		return
+	}
+	f2 := m2.Funcs[0]
+	b2 := f2.Blocks[0]
+	i2, ok := b2.Insts[0].(*ir.InstAdd)
+	vfAssert("C03.names.read-back", vfAnd(vfAnd(b2.LocalName == bname, ok && i2.LocalName == iname), vfAnd(f2.Params[0].LocalName == pname, vfAnd(m2.Globals[0].GlobalName == gname, f2.GlobalName == fname))))
+	vfAssert("C03.names.fixpoint", m2.String() == s)
+}
